@@ -3,7 +3,7 @@ splitting of back-to-back units by reported lengths (C09), arbitrary input into 
 decode entry point (C10)."""
 from __future__ import annotations
 
-from .core import outcome, octs, family, guarded, Watchdog
+from .core import outcome, octs, family, guarded, Watchdog, assign_grown
 from .ops_ecss import mk_tc, mk_tm, _mk_hdr, _inner_tm
 from .ops_cfdp import mk_pdu, pdu_class, mk_cfg, ctlv_class, mk_ctlv, bf
 from . import ops_srv1, ops_time, ops_uslp
@@ -57,9 +57,9 @@ def op_fault_decode(a):
             for m in a["mut"]:
                 f, x = m["f"], m["x"]
                 if f == "data" and kind == "tc":
-                    obj.app_data = bytes(x)
+                    assign_grown(obj, "app_data", x)
                 elif f == "data":
-                    obj.tm_data = bytes(x)
+                    assign_grown(obj, "tm_data", x)
                 elif f == "apid":
                     obj.apid = x
                 elif f == "seq":
